@@ -86,6 +86,11 @@ def cases_corrupt(tier):
               '{"jsonrpc":"2.0","method":"f","id":"\udc00"}', '[{"jsonrpc":"2.0","method":"\ud800","id":1}]', '{"jsonrpc":"2.0","method":"f","params":{"\udfff":1}}'):
         for w in ws:
             yield (w, t)
+    # pure-ASCII texts in which a string spells a lone surrogate as an escape (valid for the grammar, accepted by the parser) and is echoed by the server
+    for t in ('{"jsonrpc":"2.0","method":"echo","params":["\\ud83d"],"id":1}', '{"jsonrpc":"2.0","method":"pair","params":[1,2],"id":"a\\udc00"}', '{"method":"nosuch\\ud800","params":[],"id":1}',
+              '[{"jsonrpc":"2.0","method":"pair","params":[1,2],"id":["\\udfff"]},{"jsonrpc":"2.0","method":"\\ud800","id":{"\\ud800":1}}]', '{"jsonrpc":"2.0","method":"boom","id":"\\ud83d\\ud83d"}'):
+        for w in ws:
+            yield (w, t)
 
 
 # -- __jsonclass__ descriptors (translation on) ---------------------------------
@@ -291,7 +296,7 @@ META = {
     "technique": "bounded-exhaustive enumeration of request bodies against a well-formedness oracle (real dispatcher and real do_POST)",
     "rule": "objects: every object over jsonrpc(6) x id(18) x method(11) x params(13) member options; batches: top-level scalars and every "
     "batch of length <=2 (quick: 12-entry alphabet) / <=3 (thorough: 24 entries); corrupt: every truncation and every single-character "
-    "deletion/substitution/insertion over a 14-character alphabet of 6 (quick) / 12 (thorough) seed requests plus 60 non-JSON texts; "
+    "deletion/substitution/insertion over a 14-character alphabet of 6 (quick) / 12 (thorough) seed requests plus 60 non-JSON texts, raw lone surrogates, and pure-ASCII requests spelling lone surrogates as escapes that the reply echoes (the reply must be encodable as UTF-8); "
     "jsonclass: 29 descriptor shapes x 16 placements; http: every 7th (quick) / 2nd (thorough) of those bodies through do_POST; "
     "scale: one body per size dimension beyond the small scope - batches of 1001/1025/2500 (thorough up to 20000) calls, notifications, mixed and failing "
     "entries, parameters and ids nested 25/60/150 (thorough 300) deep, strings/parameter lists/method names/ids/member sets of those lengths; "
